@@ -28,8 +28,9 @@ import (
 type family struct {
 	Name    string
 	Scripts []script
-	Walks   int // >0: sample this many random schedules per script instead of enumerating
-	PickN   int // >0: only a seeded selection of this many scripts
+	Batch   bool // the scheduler may also commit parked writes together (one Update call)
+	Walks   int  // >0: sample this many random schedules per script instead of enumerating
+	PickN   int  // >0: only a seeded selection of this many scripts
 	reports []*scriptReport
 }
 
@@ -105,6 +106,7 @@ type job struct {
 	budget *atomic.Int64 // schedules this script may still enumerate (shared by its subtree jobs)
 	fixed  []int         // enumerate only the subtree under this choice prefix
 	split  bool          // discover the subtrees first and enqueue one job per subtree
+	batch  bool          // group commit allowed (family.Batch)
 }
 
 const (
@@ -122,10 +124,13 @@ func main() {
 	r := ev.Start("C15", "exploration")
 	r.Rule("scripts = per node 1-3 calls from {L+ = LeaseTable(+1h), L- = LeaseTable(-1h, expired when written), R = ReturnTable}; for each script every " +
 		"interleaving of the individual store operations (get/set/delete) of the nodes' calls is executed against the real kv.LFSM by a depth-first " +
-		"scheduler (scripts above 50k schedules and the quick-tier 3x2 selection are sampled with the seeded PRNG, exhaustive=false); " +
+		"scheduler; the '+ group commit' families additionally let the scheduler commit two or three parked writes, in any order, in ONE Update call " +
+		"(consecutive log indices), as the Raft group does with proposals that arrive together (scripts above 50k schedules and the quick-tier 3x2 selection are sampled with the seeded PRNG, exhaustive=false); " +
 		"a schedule is non-trivial when one node's read falls between another node's read and that node's write (overlapping read→write windows); " +
 		"distinct by hash of (script, interleaving signature)")
-	r.Assume("lease expiry is decided from the durations used (+1h = unexpired for the whole run, -1h = expired when written), never from the clock",
+	r.Assume("inside a group-commit batch each entry is judged at its position in the log; the record between two entries of one Update call is what the "+
+		"acknowledged entries so far produced (checked against the store at the end of the batch)",
+		"lease expiry is decided from the durations used (+1h = unexpired for the whole run, -1h = expired when written), never from the clock",
 		"a read served by a lagging replica is modelled as an earlier read (reads and writes of a call are separate scheduling steps)",
 		"3 nodes x 2 calls, thorough tier: scripts that differ only by a renaming of the nodes (the managers differ in nothing but their NodeID, which is only compared for equality) "+
 			"are represented by one script each (165 of 729), all enumerated exhaustively, plus a seeded selection of 60 renamed variants, also enumerated exhaustively",
@@ -162,6 +167,15 @@ func main() {
 			&family{Name: "3 nodes x 2 calls (selection, enumerated)", Scripts: canon, PickN: 4},
 		)
 	}
+	// the same scripts with group commit: parked writes may also be committed together, in any
+	// order, in ONE Update call of the state machine (proposals that reach the Raft group together)
+	fams = append(fams,
+		&family{Name: "2 nodes x 1-2 calls + group commit", Scripts: product(2, perNode(1, 2)), Batch: true},
+		&family{Name: "3 nodes x 1 call + group commit", Scripts: product(3, perNode(1, 1)), Batch: true},
+	)
+	if r.Thorough() {
+		fams = append(fams, &family{Name: "3 nodes x 2 calls + group commit (sampled)", Scripts: three2, PickN: 96, Walks: 1000, Batch: true})
+	}
 	t0 := time.Now()
 	explore(r, fams)
 	fmt.Printf("C15 exploration took %.1fs\n", time.Since(t0).Seconds())
@@ -174,7 +188,7 @@ func main() {
 	r.FloorNontrivial(int64(r.Pick(10_000, 500_000)))
 	r.FloorCount("schedules", int64(r.Pick(20_000, 1_000_000)))
 	for _, c := range []string{"lease_ok_unclaimed", "lease_ok_renew_own", "lease_ok_takeover_expired", "lease_refused_live_foreign",
-		"return_ok_own", "return_declined_foreign", "cas_rejected_set", "cas_rejected_delete", "first_claims_lost_race"} {
+		"return_ok_own", "return_declined_foreign", "cas_rejected_set", "cas_rejected_delete", "first_claims_lost_race", "batches_committed"} {
 		r.FloorCount(c, int64(r.Pick(200, 5000)))
 	}
 	r.FloorCount("stress_calls", int64(r.Pick(3000, 18_000)))
@@ -182,6 +196,7 @@ func main() {
 	r.FloorCount("stress_lease_ok_renew_own", int64(r.Pick(50, 800)))
 	r.FloorCount("stress_lease_ok_takeover_expired", int64(r.Pick(4, 40)))
 	r.FloorCount("stress_return_ok_own", int64(r.Pick(30, 400)))
+	r.FloorCount("stress_race_rounds", int64(r.Pick(300, 3000)))
 	r.Finish()
 }
 
@@ -201,7 +216,7 @@ func explore(r *ev.Run, fams []*family) {
 		}
 		f.reports = make([]*scriptReport, len(idx))
 		for k, si := range idx {
-			j := job{fam: f, idx: k, sc: scs[si], walks: f.Walks, seed: r.Seed*1_000_003 + int64(fi)*100_003 + int64(si)}
+			j := job{fam: f, idx: k, sc: scs[si], walks: f.Walks, batch: f.Batch, seed: r.Seed*1_000_003 + int64(fi)*100_003 + int64(si)}
 			if j.walks == 0 && j.sc.bound() > sampleThreshold {
 				j.walks = 2000
 			}
@@ -254,9 +269,9 @@ func explore(r *ev.Run, fams []*family) {
 					}
 					deliver(j, rep)
 				case j.walks > 0:
-					deliver(j, w.exploreWalks(j.fam.Name, j.sc, j.seed, j.walks, r.Nontrivial))
+					deliver(j, w.exploreWalks(j.fam.Name, j.sc, j.batch, j.seed, j.walks, r.Nontrivial))
 				case j.split:
-					subs, ok := w.subtrees(j.sc, splitDepth)
+					subs, ok := w.subtrees(j.sc, j.batch, splitDepth)
 					if !ok {
 						rep := newReport(j.fam.Name, j.sc, false)
 						rep.Unsure = append(rep.Unsure, fmt.Sprintf("%s: watchdog fired while partitioning the schedule tree", j.sc))
@@ -270,7 +285,7 @@ func explore(r *ev.Run, fams []*family) {
 						queue <- jj
 					}
 				default:
-					deliver(j, w.exploreDFS(j.fam.Name, j.sc, j.fixed, j.budget, r.Nontrivial))
+					deliver(j, w.exploreDFS(j.fam.Name, j.sc, j.batch, j.fixed, j.budget, r.Nontrivial))
 				}
 				pending.Done()
 			}
@@ -280,6 +295,10 @@ func explore(r *ev.Run, fams []*family) {
 		j.split = j.walks == 0 && j.sc.bound() > splitBound
 		j.budget = new(atomic.Int64)
 		j.budget.Store(int64(j.sc.bound() + 0.5))
+		if j.batch {
+			// batches add options: the tree has no simple bound; families are sized to stay far below this
+			j.budget.Store(sampleThreshold)
+		}
 		pending.Add(1)
 		queue <- j
 	}
